@@ -14,6 +14,8 @@ import EnrVerif.Model.Mutators
 import EnrVerif.Model.Spec
 import EnrVerif.Model.Text
 import EnrVerif.Model.NodeId
+import EnrVerif.Model.Strings
+import EnrVerif.Model.Json
 
 set_option linter.unusedVariables false
 
@@ -221,7 +223,7 @@ def checkAcc (d : DS) (s : St) (o : Obs) (t : Toks) (mi : Option (Bytes × Bool)
         else if k == "pk" || k == "pkkey" || k == "nidpk" then "C10"
         else if k == "conv" || k == "dbg" then "C03" else "C14"
       (s.diff s!"acc.{k}" model impl).prop owner s!"accessor_{k}_agrees_with_raw_content" s!"want={model} got={impl} pairs={showPairs r.content}"
-  let s := c s "id" (optHex r.id)
+  let s := c s "id" (optHex r.idString)
   let s := c s "ip4" (optHex r.ip4)
   let s := c s "ip6" (optHex r.ip6)
   let s := c s "tcp4" (optNat r.tcp4)
@@ -238,14 +240,10 @@ def checkAcc (d : DS) (s : St) (o : Obs) (t : Toks) (mi : Option (Bytes × Bool)
   let s := c s "tcp6s" (sock r.tcp6Socket)
   let s := c s "udpr" (if r.isUdpReachable then "1" else "0")
   let s := c s "tcpr" (if r.isTcpReachable then "1" else "0")
-  let cl := match r.clientInfo with
+  let cl := match r.clientInfoStrings with
     | none => "none"
     | some (a, b, x) => s!"{hex a};{hex b};{optHex x}"
-  -- client strings pass through from_utf8_lossy: compare only when the model's bytes are ASCII
-  let asciiOnly := match r.clientInfo with
-    | none => true
-    | some (a, b, x) => (a ++ b ++ (x.getD [])).all (·.toNat < 0x80)
-  let s := if asciiOnly then c s "client" cl else s
+  let s := c s "client" cl
   let s := match S.enrToPublic r.content with
     | .ok pk =>
       let s := c s "pk" (hex (S.encodePub pk))
@@ -540,7 +538,8 @@ def handleTxt (d : DS) (s : St) (t : Toks) (o : Toks) (rec : Option Obs) (json :
       | .ok pk => @memo S d.deq pk ob.toRec.rlpContent ob.sig (S.verify pk ob.toRec.rlpContent ob.sig)
       | .error _ => S
     | none => S
-  let m := parseText S' str
+  -- JSON documents go through the model of serde_json's string layer
+  let m := if json then parseJson S' (jsonQuote str) else parseText S' str
   let s := s.cov s!"txt/{d.name}/{tag}/{resClass res}/{if json then "json" else "text"}"
   let s := s.cmp "txt.res" (if m.isSome then "ok" else "err") (resClass res)
   let s := if expect == "accept" && resClass res != "ok" then s.prop "C12" "canonical_text_accepted" s!"tag={tag} s={hex str}"
@@ -552,6 +551,31 @@ def handleTxt (d : DS) (s : St) (t : Toks) (o : Toks) (rec : Option Obs) (json :
     -- the accepted text is the canonical one (or the same without prefix)
     if str == r.toText || str == b64enc r.encode then s.chk
     else s.prop "C12" "accepted_text_is_canonical" s!"s={hex str}"
+  | _, _ => s
+
+/-- an arbitrary JSON document handed to `serde_json::from_str::<Enr<K>>` -/
+def handleJsonDoc (d : DS) (s : St) (t : Toks) (o : Toks) (rec : Option Obs) : St :=
+  let S := d.S
+  let doc := unhex (tget t "doc")
+  let res := tget o "res"
+  let tag := tget t "tag"
+  let expect := tget t "expect"
+  let s := if res == "panic" then s.prop "C03" "parse_no_panic" s!"doc={hex doc}" else s
+  let S' := match rec with
+    | some ob =>
+      match S.enrToPublic ob.pairs with
+      | .ok pk => @memo S d.deq pk ob.toRec.rlpContent ob.sig (S.verify pk ob.toRec.rlpContent ob.sig)
+      | .error _ => S
+    | none => S
+  let m := parseJson S' doc
+  let s := s.cov s!"jsondoc/{d.name}/{tag}/{resClass res}"
+  let s := if (if m.isSome then "ok" else "err") == resClass res then s.chk
+    else (s.diff "txt.jsondoc" (if m.isSome then "ok" else "err") (resClass res)).prop "C12" "json_document_accepted_iff_its_string_is_the_text" s!"tag={tag} doc={hex doc}"
+  let s := if expect == "accept" && resClass res != "ok" then s.prop "C12" "json_spelling_of_the_text_accepted" s!"tag={tag} doc={hex doc}"
+    else if expect == "reject" && resClass res == "ok" then s.prop "C12" "other_json_document_rejected" s!"tag={tag} doc={hex doc}"
+    else s.chk
+  match m, rec with
+  | some r, some ob => cmpRec s "txt" r ob
   | _, _ => s
 
 def handleMany (d : DS) (s : St) (t : Toks) (o : Toks) (recs : List Obs) (asList : Bool) : St :=
@@ -838,7 +862,7 @@ def handleNid (s : St) (t : Toks) : St :=
         && packHex digits == inp then s.chk
     else s.prop "C16" "json_form_is_0x_and_64_lowercase_hex" s!"out={out}"
   | "deser" =>
-    let m := match NodeId.deser inp with
+    let m := match (jsonUnquote (jsonQuote inp)).bind NodeId.deser with
       | some id => hex id.raw
       | none => "err"
     let s := s.cmp "nid.deser" m out
@@ -929,6 +953,7 @@ def finishPending (s : St) (recs : List Obs) (acc : Option Toks) : St :=
                  group := (schemeName, resClass (tget o "res"), rec1) :: s.group }
       | "txt" => handleTxt d s t o rec1 false
       | "json" => handleTxt d s t o rec1 true
+      | "jsondoc" => handleJsonDoc d s t o rec1
       | "decmany" => handleMany d s t o recs false
       | "declist" => handleMany d s t o recs true
       | "init" =>
@@ -997,7 +1022,7 @@ def feed (a : Acc) (line : String) : Acc :=
                              fam := tget t "fam", keys := #[], cur := none, slots := [], before := none } }
   | "key" =>
     { a with st := { a.st with keys := a.st.keys.push (unhex (tget t "pub")) } }
-  | "dec" | "txt" | "json" | "decmany" | "declist" | "init" | "step" =>
+  | "dec" | "txt" | "json" | "jsondoc" | "decmany" | "declist" | "init" | "step" =>
     let a := flushAcc a
     let a := { a with st := { a.st with nInputs := a.st.nInputs + 1 } }
     let ctx := if head == "init" || head == "step" then a.st.ctx else s!"{head}/{tget t "scheme"}/{tget t "tag"}"
